@@ -197,6 +197,13 @@ func (ex *Executor) effectful(cc *ssa.CallCommon) bool {
 	if sc == nil {
 		return false
 	}
+	if sc.Pkg != nil && sc.Signature.Recv() == nil {
+		// library calls that stall or end the process are effects wherever they occur
+		switch sc.Pkg.Pkg.Path() + "." + sc.Name() {
+		case "time.Sleep", "os.Exit", "runtime.Goexit", "syscall.Exit", "log.Fatal", "log.Fatalf", "log.Fatalln", "log.Panic", "log.Panicf", "log.Panicln":
+			return true
+		}
+	}
 	spec := ex.S.Funcs[funcKey(sc)]
 	if spec == nil || spec.Inline || spec.IsExt {
 		return false
